@@ -751,6 +751,7 @@ structure Inv (up : Str → Str) (g : Ghost) (st : Store) (a : Api) : Prop where
 /-- the operations the limiter issues: the cache key is the condition's upstream, and a name belongs to one upstream -/
 def OpWf (up : Str → Str) : Op → Prop
   | .save k c => k = c.upstream ∧ c.upstream = up c.name
+  | .saveStored k n _ _ _ => k = up n
   | .delete k n => k = up n
   | _ => True
 
@@ -1301,10 +1302,11 @@ theorem load_ok {g : Ghost} {st st' : Store} {w w' : World} {res : Res}
     obtain ⟨h1, h2, h3⟩ := loadAll_inv sh up st.cfg.shard hj.2 hawf items st.loc hi (hinv.gl.le hle) hinv.lwf hinv.coh
     exact ⟨hj.1, ⟨hj.2, h1, h2, h3, hawf⟩⟩
 
-theorem step_ok {g : Ghost} {st st' : Store} {w w' : World} {op : Op} {res : Res}
-    (hinv : Inv up g st w.api) (hwf : OpWf up op) (h : step sh st op w = (st', w', res)) :
+theorem step_ok0 {g : Ghost} {st st' : Store} {w w' : World} {op : Op} {res : Res}
+    (hinv : Inv up g st w.api) (hwf : OpWf up op) (hnss : ∀ k n a b c, op ≠ .saveStored k n a b c) (h : step sh st op w = (st', w', res)) :
     OpOk sh up g st w op st' w' res := by
   cases op with
+  | saveStored k n a b c => exact absurd rfl (hnss k n a b c)
   | save k c => exact save_ok sh up hinv hwf h
   | delete k n => exact delete_ok sh up hinv hwf h
   | deleteUpstream k ord => exact deleteUpstream_ok sh up hinv h
@@ -1321,6 +1323,84 @@ theorem step_ok {g : Ghost} {st st' : Store} {w w' : World} {op : Op} {res : Res
     · intro n _ e he; cases he
     · intro e he; cases he
     · intro e he; cases he
+
+theorem lget_some {k n : Str} {l : Loc} {c : Cond} (h : lget k n l = some c) : (k, c) ∈ l ∧ c.name = n := by
+  unfold lget at h
+  cases hf : l.find? (sameKey k n) with
+  | none => rw [hf] at h; cases h
+  | some e =>
+    rw [hf] at h
+    cases h
+    have hm := List.mem_of_find?_eq_some hf
+    have hp := List.find?_some hf
+    simp only [sameKey, decide_eq_true_eq] at hp
+    obtain ⟨e1, e2⟩ := e
+    simp only at hp
+    exact ⟨hp.1 ▸ hm, hp.2⟩
+
+theorem edited_some {st st1 : Store} {k n : Str} {a b c : Nat} {c' : Cond} (h : edited st k n a b c = some (st1, c')) :
+    ∃ c0, (k, c0) ∈ st.loc ∧ c0.name = n ∧ c'.name = n ∧ c'.upstream = c0.upstream ∧
+      st1.cfg = st.cfg ∧ st1.stopped = st.stopped ∧ st1.loc = lput k c' st.loc := by
+  unfold edited at h
+  cases hg : lget k n st.loc with
+  | none => rw [hg] at h; cases h
+  | some c0 =>
+    rw [hg] at h
+    simp only [Option.some.injEq, Prod.mk.injEq] at h
+    obtain ⟨rfl, rfl⟩ := h
+    obtain ⟨hm, hn⟩ := lget_some hg
+    exact ⟨c0, hm, hn, hn, rfl, rfl, rfl, rfl⟩
+
+/-- the in-place change of a cached condition followed by the save of that pointer: nothing is claimed about the
+    condition from the change on, so the invariant carries over to the cache as changed, and the rest is `Save` -/
+theorem step_ok {g : Ghost} {st st' : Store} {w w' : World} {op : Op} {res : Res}
+    (hinv : Inv up g st w.api) (hwf : OpWf up op) (h : step sh st op w = (st', w', res)) :
+    OpOk sh up g st w op st' w' res := by
+  cases op with
+  | saveStored k  n  a  b  c =>
+    have hk : k = up n := hwf
+    simp only [step] at h
+    cases hE : edited st k n a b c with
+    | none =>
+      rw [hE] at h
+      cases h
+      unfold OpOk
+      simp only [ghostPre, ghostPost, hE, newPts_self, annotate]
+      exact ⟨fun q hq => (by cases hq), hinv⟩
+    | some p =>
+      obtain ⟨st1, c'⟩ := p
+      rw [hE] at h
+      simp only [] at h
+      obtain ⟨c0, hm, hn0, hn', hu', hcfg, _, hloc⟩ := edited_some hE
+      have hu0 : c0.upstream = up n := by rw [← hn0]; exact (hinv.lwf _ hm).2
+      have hk' : k = up c'.name := by rw [hn', hk]
+      have hup' : c'.upstream = up c'.name := by rw [hu', hu0, hn']
+      have hinv1 : Inv up (g.forget n) st1 w.api := by
+        refine ⟨hinv.jp.le (forget_le g n), ⟨?_, ?_⟩, ?_, ?_, hinv.awf⟩
+        · intro h hh e he hn
+          obtain ⟨hh', hne⟩ := mem_forget_held.1 hh
+          rw [hloc] at he
+          rcases mem_lput.1 he with rfl | ⟨he, _⟩
+          · exact absurd (hn.symm.trans hn') hne
+          · exact hinv.gl.1 h hh' e he hn
+        · intro m hm' e he hen
+          obtain ⟨hm'', hne⟩ := mem_forget_gone.1 hm'
+          rw [hloc] at he
+          rcases mem_lput.1 he with rfl | ⟨he, _⟩
+          · exact hne (hen.symm.trans hn')
+          · exact hinv.gl.2 m hm'' e he hen
+        · rw [hloc]; exact lput_wf hinv.lwf hk' hup'
+        · rw [hloc]; exact lput_coherent hinv.coh hinv.lwf hk'
+      have hok := save_ok sh up hinv1 (show OpWf up (.save k c') from ⟨by rw [hk', hup'], hup'⟩) h
+      unfold OpOk at hok ⊢
+      have hpre : ghostPre sh st (.saveStored k n a b c) g = ghostPre sh st1 (.save k c') (g.forget n) := by
+        simp only [ghostPre, hE, hcfg]
+      have hpost : ∀ x, ghostPost sh st (.saveStored k n a b c) res x = ghostPost sh st1 (.save k c') res x := by
+        intro x
+        cases res <;> simp only [ghostPost, hE, hcfg]
+      rw [hpre, hpost]
+      exact hok
+  | _ => exact step_ok0 sh up hinv hwf (fun _ _ _ _ _ hh => by cases hh) h
 
 /-! ## 7. A call of another goroutine inside a running flush -/
 
@@ -1563,9 +1643,10 @@ abbrev AnyRun (w : World) (pts : List Pt) (w' : World) : Prop := Run (fun _ => T
 theorem Run.any {W : Cond → Prop} {D V : Str → Prop} {w w' : World} {pts : List Pt} (h : Run W D V w pts w') : AnyRun w pts w' :=
   h.mono (fun _ _ => trivial) (fun _ _ => trivial) (fun _ _ => trivial)
 
-theorem step_run {st st' : Store} {op : Op} {w w' : World} {res : Res} (h : step sh st op w = (st', w', res)) :
+theorem step_run0 {st st' : Store} {op : Op} {w w' : World} {res : Res} (hnss : ∀ k n a b c, op ≠ .saveStored k n a b c) (h : step sh st op w = (st', w', res)) :
     ∃ pts, AnyRun w pts w' := by
   cases op with
+  | saveStored k n a b c => exact absurd rfl (hnss k n a b c)
   | save k c =>
     simp only [step, save] at h
     split at h
@@ -1618,6 +1699,19 @@ theorem step_run {st st' : Store} {op : Op} {w w' : World} {res : Res} (h : step
     simp only [step] at h
     cases h; exact ⟨[], Run.refl _ _ _ _⟩
 
+theorem step_run {st st' : Store} {op : Op} {w w' : World} {res : Res} (h : step sh st op w = (st', w', res)) :
+    ∃ pts, AnyRun w pts w' := by
+  cases op with
+  | saveStored k  n  a  b  c =>
+    simp only [step] at h
+    cases hE : edited st k n a b c with
+    | none => rw [hE] at h; cases h; exact ⟨[], Run.refl _ _ _ _⟩
+    | some p =>
+      obtain ⟨st1, c'⟩ := p
+      rw [hE] at h
+      exact step_run0 sh (op := .save k c') (fun _ _ _ _ _ hh => by cases hh) h
+  | _ => exact step_run0 sh (fun _ _ _ _ _ hh => by cases hh) h
+
 theorem stepI_run {st st' : Store} {op : OpI} {w w' : World} {res : Res} {ir : Option (Res × World × World)}
     (h : stepI sh st op w = (st', w', res, ir)) : ∃ pts, AnyRun w pts w' := by
   have hwin : ∀ {st st2 : Store} {snap : Loc} {at_ : Nat} {intr : Op} {w w3 : World} {r : Except Err Unit}
@@ -1663,6 +1757,7 @@ def Abs (n : Str) (st : Store) (a : Api) : Prop := a.get n = none ∧ ∀ e ∈ 
 
 def savesName (n : Str) : Op → Prop
   | .save _ c => c.name = n
+  | .saveStored _ m _ _ _ => m = n
   | _ => False
 
 def savesNameI (n : Str) : OpI → Prop
@@ -1680,11 +1775,12 @@ theorem wl_abs {l l' : Loc} {n : Str} (hl : ∀ e ∈ l, ¬ e.2.name = n) (hs : 
   rintro it ⟨e, he, hit⟩ hn
   exact hl e (hs e he) (hit.1.symm.trans hn)
 
-theorem step_abs {n : Str} {st st' : Store} {op : Op} {w w' : World} {res : Res}
-    (habs : Abs n st w.api) (hns : ¬ savesName n op) (h : step sh st op w = (st', w', res)) :
+theorem step_abs0 {n : Str} {st st' : Store} {op : Op} {w w' : World} {res : Res}
+    (habs : Abs n st w.api) (hns : ¬ savesName n op) (hnss : ∀ k n a b c, op ≠ .saveStored k n a b c) (h : step sh st op w = (st', w', res)) :
     ∃ pts, AnyRun w pts w' ∧ (∀ p ∈ pts, p.api.get n = none) ∧ Abs n st' w'.api := by
   obtain ⟨ha, hl⟩ := habs
   cases op with
+  | saveStored k n a b c => exact absurd rfl (hnss k n a b c)
   | save k c =>
     have hne : ¬ c.name = n := hns
     simp only [step, save] at h
@@ -1791,6 +1887,29 @@ theorem step_abs {n : Str} {st st' : Store} {op : Op} {w w' : World} {res : Res}
     cases h
     exact ⟨[], Run.refl _ _ _ _, fun p hp => (by cases hp), ha, fun e he => (by cases he)⟩
 
+theorem step_abs {n : Str} {st st' : Store} {op : Op} {w w' : World} {res : Res}
+    (habs : Abs n st w.api) (hns : ¬ savesName n op) (h : step sh st op w = (st', w', res)) :
+    ∃ pts, AnyRun w pts w' ∧ (∀ p ∈ pts, p.api.get n = none) ∧ Abs n st' w'.api := by
+  cases op with
+  | saveStored k  m  a  b  c =>
+    have hne : ¬ m = n := hns
+    simp only [step] at h
+    cases hE : edited st k m a b c with
+    | none => rw [hE] at h; cases h; exact ⟨[], Run.refl _ _ _ _, fun p hp => (by cases hp), habs⟩
+    | some p =>
+      obtain ⟨st1, c'⟩ := p
+      rw [hE] at h
+      obtain ⟨c0, _, _, hn', _, _, _, hloc⟩ := edited_some hE
+      have habs1 : Abs n st1 w.api := by
+        refine ⟨habs.1, ?_⟩
+        intro e he
+        rw [hloc] at he
+        rcases mem_lput.1 he with rfl | ⟨he, _⟩
+        · exact fun hh => hne (hn'.symm.trans hh)
+        · exact habs.2 e he
+      exact step_abs0 sh (op := .save k c') habs1 (fun hh => hne (hn'.symm.trans hh)) (fun _ _ _ _ _ hh => by cases hh) h
+  | _ => exact step_abs0 sh habs hns (fun _ _ _ _ _ hh => by cases hh) h
+
 theorem stepI_abs {n : Str} {st st' : Store} {op : OpI} {w w' : World} {res : Res} {ir : Option (Res × World × World)}
     (habs : Abs n st w.api) (hns : ¬ savesNameI n op) (h : stepI sh st op w = (st', w', res, ir)) :
     ∃ pts, AnyRun w pts w' ∧ (∀ p ∈ pts, p.api.get n = none) ∧ Abs n st' w'.api := by
@@ -1884,9 +2003,10 @@ def modeAfter (wt : Bool) : OpI → Bool
   | .plain (.restart _ wt') => wt'
   | _ => wt
 
-theorem step_mode {st st' : Store} {op : Op} {w w' : World} {res : Res} (h : step sh st op w = (st', w', res)) :
+theorem step_mode0 {st st' : Store} {op : Op} {w w' : World} {res : Res} (hnss : ∀ k n a b c, op ≠ .saveStored k n a b c) (h : step sh st op w = (st', w', res)) :
     st'.cfg.writeThrough = modeAfter st.cfg.writeThrough (.plain op) := by
   cases op with
+  | saveStored k n a b c => exact absurd rfl (hnss k n a b c)
   | save k c =>
     simp only [step, save] at h
     split at h
@@ -1914,6 +2034,21 @@ theorem step_mode {st st' : Store} {op : Op} {w w' : World} {res : Res} (h : ste
   | restart s wt =>
     simp only [step] at h
     cases h; rfl
+
+theorem step_mode {st st' : Store} {op : Op} {w w' : World} {res : Res} (h : step sh st op w = (st', w', res)) :
+    st'.cfg.writeThrough = modeAfter st.cfg.writeThrough (.plain op) := by
+  cases op with
+  | saveStored k  n  a  b  c =>
+    simp only [step] at h
+    cases hE : edited st k n a b c with
+    | none => rw [hE] at h; cases h; rfl
+    | some p =>
+      obtain ⟨st1, c'⟩ := p
+      rw [hE] at h
+      obtain ⟨_, _, _, _, _, hcfg, _, _⟩ := edited_some hE
+      have := step_mode0 sh (op := .save k c') (fun _ _ _ _ _ hh => by cases hh) h
+      rw [this]; show st1.cfg.writeThrough = st.cfg.writeThrough; rw [hcfg]
+  | _ => exact step_mode0 sh (fun _ _ _ _ _ hh => by cases hh) h
 
 theorem opI_ok {g : Ghost} {st st' : Store} {w w' : World} {op : OpI} {o : Obs}
     (hinv : Inv up g st w.api) (hwf : OpIWf up op)
